@@ -227,7 +227,8 @@ fn gen_rv(rng: &mut Rng, depth: u32) -> RV {
                     p.push((name, gen_rv(rng, depth - 1)));
                 }
             }
-            let ecma = if rng.chance(1, 3) { Some(*rng.pick(&[0u32, p.len() as u32, 0xFFFFFFFF, 1 << 31, 7])) } else { None };
+            // the count field of an ECMA array is advisory: any value, in particular one smaller than the number of pairs
+            let ecma = if rng.chance(1, 3) { Some(*rng.pick(&[0u32, p.len() as u32, (p.len() as u32).saturating_sub(1), 1, 2, 0xFFFFFFFF, 1 << 31, 7])) } else { None };
             RV::Obj(p, ecma)
         }
         _ => {
@@ -358,7 +359,7 @@ pub fn generate(kind: &str, tier: &str, seed: u64, shard: u64, nshards: u64, pat
                 ];
                 for perm in [[0, 1, 2], [0, 2, 1], [1, 0, 2], [1, 2, 0], [2, 0, 1], [2, 1, 0]].iter() {
                     let p: Vec<(Vec<u8>, RV)> = perm.iter().map(|&i| props[i].clone()).collect();
-                    for ecma in [None, Some(0u32), Some(3), Some(0xFFFFFFFF)].iter() {
+                    for ecma in [None, Some(0u32), Some(1), Some(2), Some(3), Some(4), Some(0xFFFFFFFF)].iter() {
                         let v = RV::Obj(p.clone(), *ecma);
                         let mut b = Vec::new();
                         rv_enc(&v, &mut b);
